@@ -28,12 +28,12 @@ type c11state struct {
 	model []uint32
 }
 
-func c11Apply(st *c11state, i int, s Step, idx int) *Viol {
+func c11Apply(st *c11state, i int, s Step, idx int, observe bool) *Viol {
 	c := &st.real[s.Inst]
 	m := &st.model[s.Inst]
 	before := *m
 	fail := func(clause, detail string) *Viol {
-		return &Viol{Key: "C11:" + s.Op + "/" + clause, Step: idx, Detail: detail}
+		return &Viol{Key: "C11:" + s.Op + "/" + clause, Step: idx, Inst: s.Inst, Detail: detail}
 	}
 	switch s.Op {
 	case "Set":
@@ -50,18 +50,23 @@ func c11Apply(st *c11state, i int, s Step, idx int) *Viol {
 		*m = (*m + 1) % mod24
 	case "Get":
 		if g := c.Get(); g != *m {
-			return fail("get!=model", fmt.Sprintf("Get()=%#x, model %#x", g, *m))
+			return fail("state!=model", fmt.Sprintf("Get()=%#x, model %#x", g, *m))
 		}
 	case "SQN":
 		if g := c.SQN(); uint32(g) != *m%256 {
-			return fail("sqn!=model", fmt.Sprintf("SQN()=%#x, model %#x", g, *m%256))
+			return fail("state!=model", fmt.Sprintf("SQN()=%#x, model %#x", g, *m%256))
 		}
 	case "Overflow":
 		if g := c.Overflow(); uint32(g) != *m/256 {
-			return fail("overflow!=model", fmt.Sprintf("Overflow()=%#x, model %#x", g, *m/256))
+			return fail("state!=model", fmt.Sprintf("Overflow()=%#x, model %#x", g, *m/256))
 		}
 	default:
 		return &Viol{Key: "C11:bad-step", Step: idx, Detail: s.Op}
+	}
+	if !observe {
+		// no read at all between this write and the next operation: a read that
+		// repairs (or disturbs) hidden state must not be able to hide behind the checker
+		return nil
 	}
 	// observations, in an order that depends on the position in the history
 	want := *m
@@ -73,7 +78,7 @@ func c11Apply(st *c11state, i int, s Step, idx int) *Viol {
 				return fail("get>=2^24", fmt.Sprintf("Get()=%#x after %s (model before %#x)", g, s, before))
 			}
 			if g != want {
-				clause := "get!=model"
+				clause := "state!=model"
 				if k == 3 {
 					clause = "read-changed-value"
 				}
@@ -81,19 +86,11 @@ func c11Apply(st *c11state, i int, s Step, idx int) *Viol {
 			}
 		case 1:
 			if g := c.SQN(); uint32(g) != want%256 {
-				clause := "sqn!=model"
-				if s.Op == "SetOverflow" {
-					clause = "sqn-changed"
-				}
-				return fail(clause, fmt.Sprintf("SQN()=%#x, model %#x after %s (model before %#x)", g, want%256, s, before))
+				return fail("state!=model", fmt.Sprintf("SQN()=%#x, model %#x after %s (model before %#x)", g, want%256, s, before))
 			}
 		case 2:
 			if g := c.Overflow(); uint32(g) != want/256 {
-				clause := "overflow!=model"
-				if s.Op == "SetSQN" {
-					clause = "overflow-changed"
-				}
-				return fail(clause, fmt.Sprintf("Overflow()=%#x, model %#x after %s (model before %#x)", g, want/256, s, before))
+				return fail("state!=model", fmt.Sprintf("Overflow()=%#x, model %#x after %s (model before %#x)", g, want/256, s, before))
 			}
 		}
 	}
@@ -114,7 +111,7 @@ func c11Apply(st *c11state, i int, s Step, idx int) *Viol {
 func runC11(h History) *Viol {
 	st := &c11state{real: make([]security.Count, len(h.Instances)), model: make([]uint32, len(h.Instances))}
 	for i, ic := range h.Instances {
-		if v := c11Apply(st, i, Step{Inst: i, Op: "Set", A: ic.O, B: ic.S}, -1-i); v != nil {
+		if v := c11Apply(st, i, Step{Inst: i, Op: "Set", A: ic.O, B: ic.S}, -1-i, h.Obs == 0); v != nil {
 			return v
 		}
 	}
@@ -122,8 +119,33 @@ func runC11(h History) *Viol {
 		if s.Inst < 0 || s.Inst >= len(h.Instances) {
 			continue
 		}
-		if v := c11Apply(st, s.Inst, s, i); v != nil {
+		observe := h.Obs == 0 || (h.Obs == 1 && i%4 == 3)
+		if v := c11Apply(st, s.Inst, s, i, observe); v != nil {
 			return v
+		}
+	}
+	// final observation of every instance (read order varies with the history length)
+	for k := range st.real {
+		c := &st.real[k]
+		want := st.model[k]
+		fail := func(clause, detail string) *Viol {
+			return &Viol{Key: "C11:final/" + clause, Step: len(h.Steps), Inst: k, Detail: detail + fmt.Sprintf(" (final observation of instance #%d; observation mode %d)", k, h.Obs)}
+		}
+		for r := 0; r < 3; r++ {
+			switch (len(h.Steps) + r) % 3 {
+			case 0:
+				if g := c.Get(); g != want {
+					return fail("state!=model", fmt.Sprintf("Get()=%#x, model %#x", g, want))
+				}
+			case 1:
+				if g := c.SQN(); uint32(g) != want%256 {
+					return fail("state!=model", fmt.Sprintf("SQN()=%#x, model %#x", g, want%256))
+				}
+			case 2:
+				if g := c.Overflow(); uint32(g) != want/256 {
+					return fail("state!=model", fmt.Sprintf("Overflow()=%#x, model %#x", g, want/256))
+				}
+			}
 		}
 	}
 	return nil
@@ -133,7 +155,7 @@ func runC11(h History) *Viol {
 // crosses a 255->0 carry or the 2^24-1 -> 0 wrap.
 func genC11(seed, index uint64, start uint32, buf []Step) (History, bool) {
 	r := &Rng{s: mix(seed, index)}
-	h := History{Property: "C11", Seed: seed, Index: index}
+	h := History{Property: "C11", Seed: seed, Index: index, Obs: int(index % 3)}
 	ninst := 1
 	if index%8 == 7 {
 		ninst = 2 + r.Intn(2)
@@ -339,6 +361,18 @@ func checkC11(tier string, seed uint64) int {
 	nviol := 0
 	if firstFail != nil {
 		nviol = 1
+		// make the observation pattern independent of step positions before shrinking:
+		// prefer "observe after every step" (attributes the failure to one step), else
+		// "only explicit reads and the end"
+		for _, mode := range []int{0, 2} {
+			c := *firstFail
+			c.Obs = mode
+			if v := runC11(c); v != nil {
+				c.Violation = v
+				*firstFail = c
+				break
+			}
+		}
 		min := shrink(*firstFail, runC11, c11ShrinkArgs)
 		rc = report("C11", min, known, func(p string) *Viol { return replayChild("c11", p) })
 	}
@@ -364,7 +398,7 @@ func checkC11(tier string, seed uint64) int {
 			"fault_kinds_note":         "none available: security.Count is a single-owner value with no I/O, clock, lock or peer; the only quantifier is the operation history",
 			"simulated_time":           "none (no timers in the object)",
 			"real_vs_stub":             map[string]string{"security.Count": "real code from /repo working tree", "reference model": "24-bit integer in the harness", "scheduler": "history order decided by the seeded generator"},
-			"invariants_per_step":      []string{"Get()==model", "SQN()==model mod 256", "Overflow()==model div 256", "Get()<2^24", "Get()==Overflow()*256+SQN()", "repeated read unchanged", "other instances unchanged"},
+			"invariants_per_step":      []string{"observation density varies per history: after every step / every 4th step / only explicit reads and the end", "Get()==model", "SQN()==model mod 256", "Overflow()==model div 256", "Get()<2^24", "Get()==Overflow()*256+SQN()", "repeated read unchanged", "other instances unchanged"},
 			"determinism":              "history is a pure function of (seed, index); replay file re-executed in a fresh process before any VIOLATION is printed",
 		},
 		Assumptions: []string{
